@@ -11,14 +11,14 @@ PROP = {
     "audit_module": "Audit.C08",
     "theorems": [
         "Wm.Route.ctx_values", "Wm.Route.ctx_get", "Wm.Route.ctx5_addHandlerContext_idem",
-        "Wm.Route.ctx_in_handler", "Wm.Route.ctx_on_produced",
+        "Wm.Route.ctx_in_handler", "Wm.Route.ctx_on_produced", "Wm.Route.app_values_never_shadow",
         # the defect repaired by fix 5846d09, kept as a witness over the Old model (WmModel/RouteOld.lean)
         "Wm.Route.Old.stale_context_shows_through", "Wm.Route.Old.agrees_on_nonempty",
         "Wm.Route.handleOne_fn", "Wm.Route.publishes_only_own", "Wm.Route.done_context_irrelevant",
         "Wm.Route.returned_outputs_published", "Wm.Route.outputs_keep_own_context", "Wm.Route.published_iff",
         # RunHandlers as an operation on the router state
         "Wm.Route.rexec_keeps_started", "Wm.Route.runHandlers_idempotent", "Wm.Route.decorated_exactly_once",
-        "Wm.Route.unstarted_undecorated",
+        "Wm.Route.unstarted_undecorated", "Wm.Route.failed_attempt_then_retry",
         "Wm.Route.nopub_middleware_outputs_nack", "Wm.Route.routes_to_own_fn", "Wm.Route.route_order_irrelevant",
         "Wm.Route.only_own_function", "Wm.Route.subscriptions_bijective",
     ],
@@ -55,7 +55,13 @@ PROP = {
             "values must be there at every publisher decorator and at the publisher. app_wrapped_subscriber: 4 fixed wirings and "
             "about a quarter of the random subscriber objects are subscribers the APPLICATION has wrapped itself with the public "
             "MessageTransformSubscriberDecorator (alone, shared by handlers, next to raw ones, with router decorators) - the context "
-            "clause is unchanged for their handlers. Every message object (consumed copy, each fresh output, "
+            "clause is unchanged for their handlers. failing_decorator_and_app_context_values: 7 fixed programs and the stepwise random "
+            "configurations use publisher decorators that return an error the first time they are applied (D<id>!, only after Run): "
+            "RunHandlers reports the error and is called again until it succeeds - the handler must then be decorated like any other; "
+            "token K (a fifth of the random configurations): application code keeps values of its own in the message context under "
+            "the plain string keys handler_name / publisher_name / subscriber_name / subscribe_topic / publish_topic (in a subscriber "
+            "decorator and in a middleware, i.e. after the router set its values) - the accessors must still report the router's. "
+            "Every message object (consumed copy, each fresh output, "
             "each middleware output) carries a marker on its OWN context from its creation; the publisher records for every element "
             "of every call which marker its context still has (own context kept, none replaced by another element's). Observation canonical per handler (Go map order in "
             "RunHandlers is random). Oracles: model observation equality and the property monitor. Non-trivial = >= 2 handlers and "
@@ -63,7 +69,7 @@ PROP = {
     "trusted_base": [
         "Lean 4.33.0 kernel; axioms per theorem listed under theorem_axioms (subset of propext, Classical.choice, Quot.sound)",
         "extractor harness/cmd/extract/c08.go (go/ast: the set statements of handler.addHandlerContext with their guards if any, the "
-        "key each of the five accessors reads, the values of the key constants; 27 structural facts: the subscriber context decorator is applied unconditionally, RunHandlers decorates inside its one loop after the started-guard, the exact control-flow skeletons of handleMessage and publishProducedMessages, five unconditional WithValue sets,  AddHandler stores its parameters and computes the "
+        "key each of the five accessors reads, the values of the key constants; 28 structural facts: the context key type is a private defined type (not an alias of string), the subscriber context decorator is applied unconditionally, RunHandlers decorates inside its one loop after the started-guard, the exact control-flow skeletons of handleMessage and publishProducedMessages, five unconditional WithValue sets,  AddHandler stores its parameters and computes the "
         "type names from its own objects, RunHandlers subscribes h.subscriber on h.subscribeTopic and gives the channel to the same "
         "handler, handleMessage passes the returned slice untouched through addHandlerContext to one Publish(h.publishTopic, "
         "produced...) on h.publisher, guards for empty output / nil publisher, disabledPublisher) and the interpreter "
@@ -92,6 +98,13 @@ PROP = {
         "passes each publisher decorator registered before its handler's start exactly once (RunHandlers decorates only handlers "
         "with started = false, model Wm.Route.rstep; theorems runHandlers_idempotent, decorated_exactly_once), and each produced "
         "message's context stays a child of that message's own context (theorem outputs_keep_own_context).",
+        "No-publisher clause read as a characterisation: a handler without publisher whose function returns no error is Nacked "
+        "exactly when its chain returns messages ('nevertheless returns messages') - monitor rule nopub_nack_without_outputs; for "
+        "handlers WITH a publisher the Ack is compared with the model only.",
+        "Failing decorators: only publisher decorators fail in the generated programs (a failed decorateHandlerPublisher commits "
+        "nothing, theorem failed_attempt_then_retry). A SUBSCRIBER decorator failing once (token E<id>!, accepted but not "
+        "generated) makes the unchanged code wrap the late handler's publisher twice on the retry - reported as a defect of the "
+        "unchanged tree, see the hand-back.",
         "Message objects are not shared between two handlers at the same time (that would be a data race on SetContext).",
     ],
     "explanation": "routes_to_own_fn / only_own_function / route_order_irrelevant: for every configuration, script and map order a "
@@ -108,7 +121,7 @@ PROP = {
                   "obey the model's law on every run; model and an independent monitor are compared with the real Router on all "
                   "two-handler wirings and on random configurations of 1..6 handlers with interleaved streams.",
     "level_note": "Proved about the model, not about the Go code; the routing theorems are close to the model's definitions, the "
-                  "weight is on the correspondence (differential harness with pointer-identity recording publishers, 27 structural "
+                  "weight is on the correspondence (differential harness with pointer-identity recording publishers, 28 structural "
                   "facts, generated context code + 4 tie theorems, -race). The context clause is proved without a guard on the "
                   "incoming context (fix 5846d09); the pre-fix behaviour is kept as an Old witness model.",
     "technique": "Lean 4 theorems over a hand-written executable model + generated deep-embedded context code with tie theorems + "
